@@ -20,6 +20,13 @@ from vlib import harness  # noqa: E402
 
 PROP = "C01"
 
+# known finding classes left out by construction (C01_EXCLUDE=none re-opens them); each has a fixed
+# probe in known_findings.json
+EXCLUDE = {"ho_flattened_return"}
+if os.environ.get("C01_EXCLUDE") is not None:
+    _e = os.environ["C01_EXCLUDE"].strip()
+    EXCLUDE = set() if _e in ("", "none") else {x.strip() for x in _e.split(",")}
+
 TEMPLATE_PRELUDE = """
 from guppylang.std.quantum import h, cx, x, measure_array, discard_array
 from guppylang.std.option import Option, nothing, some
@@ -44,11 +51,30 @@ def take_q(q: qubit @owned) -> None: ...
 def mk_arr() -> array[int, 3]: ...
 
 @guppy.declare
+def take_arr(xs: array[int, 2] @owned) -> None: ...
+
+@guppy.declare
+def use_arr(xs: array[int, 2]) -> None: ...
+
+@guppy.declare
+def take_qs(s: QS @owned) -> None: ...
+
+@guppy.declare
+def use_int(x: int) -> None: ...
+
+@guppy.declare
 def mk_qs() -> QS: ...
 """
 
 
 def invalid_signature(msg):
+    # the known class: a function value whose result row was flattened (None -> [], tuple -> its
+    # elements) connected to a port whose result is the un-flattened type (Unit / one tuple value)
+    mm = re.search(r"Cannot connect (.*?) -> (\[.*\]) to (.*?) -> (\[.*\])\.\s*$", msg.split("\n\nStack backtrace")[0], re.S)
+    if mm and mm.group(1) == mm.group(3):
+        o1, o2 = mm.group(2), mm.group(4)
+        if {o1, o2} == {"[]", "[Unit]"} or o1 == "[" + o2 + "]" or o2 == "[" + o1 + "]":
+            return "ho_flattened_return"
     m = msg.lower()
     for key in ("more than one connection", "no connection", "unconnected", "incompatible", "signature", "type mismatch",
                 "not a valid", "dominance", "order edge", "cycle", "entrypoint", "linear", "copyable", "bound"):
@@ -189,7 +215,94 @@ def templates(st):
              "    discard_array(qs)", "    discard_array(rs)", "    return q"]
         return {"src": "\n".join(L) + "\n", "labels": ["tmpl:generic_linear"], "entry": "f"}
 
-    return st.one_of(tuple_sum(), affine_unused(), struct_place(), generic_linear())
+    NAMES = ["a", "q", "zs", "arr", "m", "x", "b1", "k", "w", "qq", "aa", "z", "n1", "r", "t0", "v"]
+    KINDS = {"qubit": ("qubit @owned", "take_q({v})", "use_q({v})"),
+             "arr": ("array[int, 2] @owned", "take_arr({v})", "use_arr({v})"),
+             "qs": ("QS @owned", "take_qs({v})", "use_q({v}.q)"),
+             "int": ("int", "use_int({v})", "use_int({v} + 1)"),
+             "float": ("float", "use_int(int({v}))", "use_int(1)")}
+
+    @st.composite
+    def livesets(draw):
+        """mixed linear / affine / copyable variables whose last use sits in different successors of
+        one or two nested branches: block outputs of different kinds in name-dependent order"""
+        k = draw(st.integers(2, 6))
+        names = draw(st.lists(st.sampled_from(NAMES), min_size=k, max_size=k, unique=True))
+        kinds = [draw(st.sampled_from(["qubit", "qubit", "arr", "arr", "qs", "int", "float"])) for _ in names]
+        nested = draw(st.booleans())
+        loop = draw(st.booleans())
+        where = []
+        for kd in kinds:
+            opts = ["after", "both", "T_and_after_F"] if kd in ("qubit", "qs") else ["after", "both", "T", "F", "none"]
+            where.append(draw(st.sampled_from(opts)))
+        sig = ", ".join(f"{nm}: {KINDS[kd][0]}" for nm, kd in zip(names, kinds))
+        L = ["@guppy", f"def f(c: bool, d: bool, {sig}) -> int:", "    acc = 0"]
+        T, F, A = [], [], []
+        for nm, kd, w in zip(names, kinds, where):
+            take, use = KINDS[kd][1].format(v=nm), KINDS[kd][2].format(v=nm)
+            if draw(st.booleans()):
+                T.append(use) if draw(st.booleans()) else F.append(use)
+            if w == "after":
+                A.append(take)
+            elif w == "both":
+                T.append(take); F.append(take)
+            elif w == "T_and_after_F":
+                T.append(take); F.append(use); F.append(take)
+            elif w == "T":
+                T.append(take)
+            elif w == "F":
+                F.append(take)
+        T = list(draw(st.permutations(T))) if all("take" not in x for x in T) else T
+        L.append("    if c:")
+        if nested:
+            L.append("        if d:")
+            L.append("            acc += 1")
+            L.append("        else:")
+            L.append("            acc += 2")
+        L += ["        " + x for x in T] or ["        pass"]
+        L.append("        acc += 3")
+        if draw(st.booleans()) and not A:
+            L.append("        return acc")
+            ret_in_T = True
+        else:
+            ret_in_T = False
+        L.append("    else:")
+        L += ["        " + x for x in F] or ["        pass"]
+        if loop:
+            L += ["        i = 0", "        while i < 2:", "            acc += i", "            i += 1"]
+        L += ["    " + x for x in A]
+        L.append("    return acc")
+        return {"src": "\n".join(L) + "\n", "labels": ["tmpl:livesets"] + (["tmpl:nested"] if nested else []), "entry": "f"}
+
+    @st.composite
+    def generic_inst(draw):
+        """generic functions instantiated at unusual types (None, empty tuple, tuples, arrays, functions)"""
+        tys = {"int": "1", "None": "None", "tuple[int, bool]": "(1, True)", "tuple[()]": "()", "float": "1.5",
+               "array[int, 2]": "array(1, 2)", "bool": "c", "tuple[None, int]": "(None, 2)"}
+        t1 = draw(st.sampled_from(sorted(tys)))
+        t2 = draw(st.sampled_from(sorted(tys)))
+        copy1 = "array" not in t1
+        L = ['T = guppy.type_var("T", copyable=False, droppable=True)', 'U = guppy.type_var("U", copyable=False, droppable=True)', "",
+             "@guppy", "def ident(x: T @owned) -> T:", "    return x", "",
+             "@guppy", "def first(x: T @owned, y: U @owned) -> T:", "    return x", "",
+             "@guppy", "def second(x: T @owned, y: U @owned) -> U:", "    return y", "",
+             "@guppy", "def pair(x: T @owned, y: U @owned) -> tuple[U, T]:", "    return y, x", "",
+             "@guppy", "def app(f: Callable[[int], T], x: int) -> T:", "    return f(x)", "",
+             "@guppy", f"def mk1(x: int) -> {t1}:", f"    c = x > 0", f"    return {tys[t1]}", "",
+             "@guppy", f"def f(c: bool) -> None:"]
+        forms = [f"r1 = ident({tys[t1]})", f"r2 = first({tys[t1]}, {tys[t2]})", f"r3 = second({tys[t1]}, {tys[t2]})",
+                 f"r4 = pair({tys[t1]}, {tys[t2]})", "r5 = app(mk1, 3)", f"r6 = ident(ident({tys[t2]}))",
+                 f"r7: {t2} = second({tys[t1]}, {tys[t2]})", "r8 = ident(mk1(2))", "app(mk1, 4)"]
+        picked = draw(st.lists(st.sampled_from(forms), min_size=1, max_size=4, unique=True))
+        if (t1 == "None" or t1.startswith("tuple")) and "ho_flattened_return" in EXCLUDE:
+            # known finding (known_findings.json): a function value returning None or a tuple passed where the
+            # return type is a type parameter lowers to a flattened result row vs the expected single value
+            picked = [fm for fm in picked if "app(" not in fm] or [forms[0]]
+        for fm in picked:
+            L.append("    " + fm)
+        return {"src": "from collections.abc import Callable\n" + "\n".join(L) + "\n", "labels": ["tmpl:generic_inst", "tmpl:inst:" + t1], "entry": "f"}
+
+    return st.one_of(tuple_sum(), affine_unused(), struct_place(), generic_linear(), livesets(), livesets(), generic_inst())
 
 
 def worker(ctx):
